@@ -1,7 +1,8 @@
 //! C09 / C11 — PatternEncoder::new + Encode::encode on the real crate.
 //! All strings are lists of code points.  Options are () or (v).
 //! case:   ( mode pattern rec mdc thread treqs )   |   ( 3 chars ) -> cls of those chars only
-//!   mode   1 = construct and encode, 2 = construct only (absurd widths)
+//!   mode   1 = construct and encode, 2 = construct only (absurd widths),
+//!          4 = as 1 but in a forked child, after the parent has encoded the pid formatters
 //!   rec    ( level msg target module? file? line? )
 //!   mdc    ( (key value)* )
 //!   thread () unnamed thread | (name)
@@ -229,9 +230,74 @@ fn body(case: &Val) -> Val {
     Val::L(vec![cls, rt, Val::L(times), res])
 }
 
+/// mode 4: the program shape "encode, fork, encode in the child".  The parent
+/// first encodes a record with the pid / thread-id formatters (so that anything
+/// the crate caches per process is initialised), then forks; the child runs
+/// the case as mode 1 (reporting ITS pid / thread id as oracle values), sends
+/// the result line over a pipe and _exits.
+fn forked(case: &Val) -> Val {
+    {
+        let warm = PatternEncoder::new("{P} {pid} {I} {thread_id} {i} {tid} {T} {d(%Y)}");
+        let mut cap = Cap { ev: vec![], cur: vec![] };
+        let _ = warm.encode(
+            &mut cap,
+            &log::Record::builder().level(log::Level::Info).args(format_args!("warm")).build(),
+        );
+    }
+    let mut items = case.l().to_vec();
+    items[0] = Val::N(1);
+    let child_case = Val::L(items);
+    let mut fds = [0i32; 2];
+    if unsafe { libc::pipe(fds.as_mut_ptr()) } != 0 {
+        panic!("pipe");
+    }
+    let pid = unsafe { libc::fork() };
+    if pid < 0 {
+        panic!("fork");
+    }
+    if pid == 0 {
+        unsafe { libc::close(fds[0]) };
+        let res = run(&child_case);
+        let mut out = String::new();
+        vh::val::print(&res, &mut out);
+        let bytes = out.as_bytes();
+        let mut off = 0;
+        while off < bytes.len() {
+            let n = unsafe {
+                libc::write(fds[1], bytes[off..].as_ptr() as *const libc::c_void, bytes.len() - off)
+            };
+            if n <= 0 {
+                break;
+            }
+            off += n as usize;
+        }
+        unsafe { libc::_exit(0) };
+    }
+    unsafe { libc::close(fds[1]) };
+    let mut got = Vec::new();
+    let mut buf = [0u8; 4096];
+    loop {
+        let n = unsafe { libc::read(fds[0], buf.as_mut_ptr() as *mut libc::c_void, buf.len()) };
+        if n <= 0 {
+            break;
+        }
+        got.extend_from_slice(&buf[..n as usize]);
+    }
+    unsafe { libc::close(fds[0]) };
+    let mut status = 0i32;
+    unsafe { libc::waitpid(pid, &mut status, 0) };
+    match String::from_utf8(got) {
+        Ok(line) if !line.trim().is_empty() => vh::val::parse(line.trim()),
+        _ => Val::text("childdied"),
+    }
+}
+
 fn run(case: &Val) -> Val {
     if case.l()[0].n() == 3 {
         return body(case);
+    }
+    if case.l()[0].n() == 4 {
+        return forked(case);
     }
     let thread = opt_cps(&case.l()[4]);
     let case = case.clone();
